@@ -10,19 +10,31 @@ LEVEL_TEXT = ("Lean theorems over the hand model of convert_params lines 110-239
               "likelihood is finite, reported parameters carry the zeros, reported nll is the likelihood at the reported parameters, "
               "bad curvature -> NaN, k=0 -> 0, consistency in the subset-search branch, no Python error reachable.  The decision sites and "
               "the code-length expression are regenerated from the source; the model is tied to the real routine by correspondence on "
-              "linear-Gaussian and pole-type models with the Hessian the routine really used captured by wrapping numdifftools.Hessian.")
+              "linear-Gaussian and pole-type models with the Hessian the routine really used captured by wrapping numdifftools.Hessian.  "
+              "Props/C07c (row and call independence of the stage): the in-place writes of main's loop and of convert_params are regenerated with "
+              "their origins (fresh | the row's own stage-1 slot | shared; harness/extractors/_norm_c05.py joined at the call sites); "
+              "fisher_rows_do_not_share_state is a decide over that table, fisherStage_eq_fisherFile proves that the loop as written with the "
+              "in-place snap is Model/Stages.fisherRow mapped over (function, stage-1 row) for every rank count, with the retry after NameError "
+              "computed on the slot as the first attempt left it (retry_computes; retry_fresh_of_slot_untouched); tied to the code by running the "
+              "real test_all_Fisher.main on synthetic libraries under base/reversed/shuffled/one-removed/2- and 3-rank schedules and comparing "
+              "every output row with the base schedule, with fresh-copy calls of the routine (oracle-checked) and with the fisherFile model.")
 TECHNIQUE = ("Lean 4 proof over a NumOps-polymorphic hand model (Float instance executable, XR-over-R instance for proofs, Mathlib for log/sqrt) "
              "+ regenerated expression AST / tests + model-code correspondence + independent closed-form oracle on the real code")
-RULE = ("cases drawn from VERIF_SEED: (model family, data set, theta with each coordinate placed below/near/at/above the snapping threshold "
+RULE = ("[family] libraries of 10-13 functions on one data set (linear below/at/above threshold, forced non-finite likelihoods, exact-threshold, "
+        "first-Hessian-unusable, pole, no-parameter, nan/inf stage-1 likelihood, NameError before / behind the snap) x 6 schedules; [calls] "
+        "cases drawn from VERIF_SEED: (model family, data set, theta with each coordinate placed below/near/at/above the snapping threshold "
         "|theta|sqrt(F/12)=1, max_param, optional forced non-finite likelihood on chosen zero patterns, optional perturbation of the Hessians "
         "numdifftools returns); distinct = (function string, decision vector of the coordinates, branch taken, injections); non-trivial = at "
         "least one coordinate below threshold or a fallback/NaN/search branch")
 EXPLANATION = LEVEL_TEXT
-TRUSTED = ["hand model ESRVerif/Model/Codelen.lean of convert_params lines 110-239 (tied by correspondence incl. the sequence of likelihood evaluations)",
+TRUSTED = ["harness/extractors/_norm_c05.py freshness rules; callees other than convert_params are assumed not to write their array arguments; "
+           "the scripted NameError (raised by the likelihood before / behind the snap) stands for 'function not implemented in numpy'",
+           "hand model ESRVerif/Model/Codelen.lean of convert_params lines 110-239 (tied by correspondence incl. the sequence of likelihood evaluations)",
            "harness/extractors/codelen.py (expression and test extraction)",
            "numdifftools.Hessian, scipy.stats.mode and the .3e/.1e rounding of the fallback selection (not modelled; outcome captured and passed to the model)",
            "IEEE rounding/overflow and signed zeros are not modelled by the extended-real instance; numpy log vs libm log compared to 1e-9"]
-ASSUMPTIONS = ["theta_ML is a float ndarray of length >= nparam, nparam <= max_param (as main passes it)",
+ASSUMPTIONS = ["C07c: no retry raises (Props/C14c NoCrash), stage-1 table has one row per function and >= 4 parameter columns",
+               "theta_ML is a float ndarray of length >= nparam, nparam <= max_param (as main passes it)",
                "the likelihood closure is a deterministic function of the parameter vector",
                "the argument negloglike is the likelihood at theta_ML (for the clause 'reported nll is the likelihood at the reported parameters' when nothing is snapped)"]
 # tables whose committed version may stand in as a hand-written model when the translator cannot read the source;
